@@ -3,6 +3,7 @@ package srvp
 import (
 	"syscall"
 	"bytes"
+	"encoding/json"
 	"context"
 	"errors"
 	"fmt"
@@ -146,6 +147,10 @@ type BackupCase struct {
 	Kinds []string `json:"kinds,omitempty"`
 	// the server starts over a database file that already exists (a restart), not a fresh one
 	Restarted bool `json:"restarted,omitempty"`
+	// with Restarted: the existing file is the same JSON document in another byte layout (1: with a
+	// trailing newline, 2: indented) - a file that was restored through an editor or a JSON tool.
+	// The server opens it; what it uploads before its first own write is a copy of THAT file.
+	Reformat int `json:"reformat,omitempty"`
 }
 
 // c17KEK counts the uses of the key-encryption key in the backup scenarios (C05 looks at it).
@@ -205,6 +210,25 @@ func runC17Bubble(dir string, c BackupCase, info *h.Info) *h.Violation {
 			return h.V("harness", "put: %v", err)
 		}
 		info.Class("server-restarted-over-an-existing-database")
+		if c.Reformat > 0 {
+			b, err := os.ReadFile(p)
+			if err != nil {
+				return h.V("harness", "read: %v", err)
+			}
+			if c.Reformat == 1 {
+				b = append(b, '\n')
+			} else {
+				var buf bytes.Buffer
+				if err := json.Indent(&buf, b, "", "  "); err != nil {
+					return h.V("harness", "indent: %v", err)
+				}
+				b = append(buf.Bytes(), '\n')
+			}
+			if err := os.WriteFile(p, b, 0o600); err != nil {
+				return h.V("harness", "write: %v", err)
+			}
+			info.Class("existing-database-file-in-another-byte-layout")
+		}
 	}
 	d, err := db.Open(p, counting, audit.New(sink))
 	if err != nil {
@@ -446,7 +470,7 @@ func runC17Bubble(dir string, c BackupCase, info *h.Info) *h.Violation {
 func genBackupCase(rt *rapid.T) BackupCase {
 	c := BackupCase{
 		Script:  rapid.SliceOfN(rapid.SampledFrom([]string{"ok", "ok", "ok", "fail", "neterr", "block", "hang", "slow75", "slow90", "slow130"}), 0, 6).Draw(rt, "script"),
-		CancelS: rapid.SampledFrom([]int{0, 1, 30, 59, 61, 100, 125, 200, 400, 700, 1500}).Draw(rt, "cancel"),
+		CancelS: rapid.SampledFrom([]int{0, 1, 30, 59, 61, 100, 125, 200, 400, 700, 1500, 0, 1, 30, 59, 61, 100, 125, 200, 400, 700, 1500, 90_000, 200_000}).Draw(rt, "cancel"),
 		OffsetS: rapid.SampledFrom([]int{0, 0, 13, 45, 59}).Draw(rt, "offset"),
 	}
 	ws := rapid.SliceOfN(rapid.IntRange(0, 7000), 0, 8).Draw(rt, "writes")
@@ -466,12 +490,15 @@ func genBackupCase(rt *rapid.T) BackupCase {
 		c.Kinds = rapid.SliceOfN(rapid.SampledFrom(pool), len(ws), len(ws)).Draw(rt, "writekinds")
 	}
 	c.Restarted = rapid.IntRange(0, 2).Draw(rt, "restarted") == 0
+	if c.Restarted {
+		c.Reformat = rapid.SampledFrom([]int{0, 0, 1, 2}).Draw(rt, "reformat")
+	}
 	return c
 }
 
 var c17 = &h.Campaign[BackupCase]{
 	Prop: "C17", Sub: "backup",
-	Rule: "rapid + testing/synctest: timelines over virtual time of database writes (puts, activations, delete-versions, deletes, a 1.2 MiB value; single, bursts, long idle gaps, during uploads), an upload outcome script (ok / HTTP 403 / network error / slow then ok / hangs until the request context ends) served by an in-memory HTTP client behind a real s3.Client, and cancellation at a generated instant; the real periodic backup loop runs through the build-tagged hook; every database file version is snapshotted by the harness; a pending change (failed upload, or a write after the last attempt) must be attempted again within three minutes - the check's reading of 'is retried', for which the property gives no bound; a watchdog outside the bubble reports a loop that stays runnable without virtual progress (>= 10 samples over >= 2 s real time); non-trivial = timeline with an idle gap > 1 minute, a failed upload, or a write racing an upload; distinct by timeline",
+	Rule: "rapid + testing/synctest: timelines over virtual time of database writes (puts, activations, delete-versions, deletes, a 1.2 MiB value; single, bursts, long idle gaps, during uploads), an upload outcome script (ok / HTTP 403 / network error / slow then ok / hangs until the request context ends) served by an in-memory HTTP client behind a real s3.Client, and cancellation at a generated instant; the real periodic backup loop runs through the build-tagged hook; every database file version is snapshotted by the harness; a pending change (failed upload, or a write after the last attempt) must be attempted again within three minutes - the check's reading of 'is retried', for which the property gives no bound; a watchdog outside the bubble reports a loop that stays runnable without virtual progress (>= 10 samples over >= 2 s real time); idle periods of more than one and more than two days, a server restarted over a database file in another byte layout (trailing newline, indented); non-trivial = timeline with an idle gap > 1 minute, a failed upload, or a write racing an upload; distinct by timeline",
 	Quick: 1500, Thorough: 600000,
 	Gen:   genBackupCase,
 	Run:   runC17,
